@@ -112,6 +112,10 @@ def neutral(obj, ns_name, depth=0):
                  getattr(v, 'complete_ctype', None) or getattr(v, 'ctype', None))
             out[a] = v
             continue
+        if a == 'ctype' and cls == 'Callback' and v == getattr(obj, 'name', None):
+            # the writer omits c:type on a callback whose C name equals its GIR name (the anonymous callback of a
+            # function-pointer field carries the field name there, which is no C type); absent means "as the name"
+            v = None
         if a == 'attributes':
             v = dict(v) if v else {}
         if a == 'doc' and v == '':
@@ -230,8 +234,12 @@ def rich_library(seed, idx):
 
 def libraries(seed, idx):
     from . import c01, c02, c13
-    k = idx % 4
+    k = idx % 5
     rng = core.rng_for(seed, 'c07lib', idx)
+    if k == 4:
+        # GObject-style library: classes, interfaces, properties, signals, vfuncs, boxed, error domains + identifier annotations
+        from . import c06
+        return c06.scanner_library(seed, idx, k=2)
     if k == 0:
         hdr = apigen.Source('/src/foo.h')
         src = apigen.Source('/src/foo.c')
